@@ -3,14 +3,15 @@
 props    : properties whose tagged assertions live in the harness
 untagged : properties for which an UNTAGGED failing check (the crate's own assert!/debug_assert!/
            expect, arithmetic overflow, out-of-bounds, invalid pointer) counts as a violation.
-           Default: props & TOTAL (properties whose statement includes "returns normally /
-           never panics") - plus C11 which every operation harness serves.
+           Default: props & TOTAL (properties whose statement fixes the RESULT of the call for every input -
+           "returns normally / exactly those / yields exactly" - so that a panic inside the operation contradicts
+           them), which includes C11 that every operation harness serves.
 ns       : capacities per tier (thorough defaults to quick if absent)
 unwind   : loop bound as a function of N (unwinding assertions stay ON: a too-small bound is
            reported as 'undecided', never as a pass)
 """
 
-TOTAL = {'C01', 'C09', 'C11', 'C14', 'C16', 'C19'}
+TOTAL = {'C01', 'C07', 'C08', 'C09', 'C10', 'C11', 'C12', 'C13', 'C14', 'C16', 'C19'}
 
 Q = [0, 1, 3]
 T = [0, 1, 2, 3, 4, 5]
